@@ -53,9 +53,10 @@ func (r *w1Row) key() string {
 }
 
 type w1Body struct {
-	rows     []w1Row // rows of the workload metrics only
-	rowCount int     // all rows
-	sampled  []int32 // workload metrics for which the aggregator reported an insert sampling factor
+	rows     []w1Row     // rows of the workload metrics only
+	rowCount int         // all rows
+	sampled  []int32     // workload metrics for which the aggregator reported an insert sampling factor
+	slow     []w1SlowKey // rows of the low-resolution metric
 	parseErr string
 }
 
@@ -71,7 +72,7 @@ func w1ParseBody(body []byte) w1Body {
 	var td chutil.ColTDigest // reused across rows: the decoder resets and refills its digest
 	var uq chutil.ColUnique
 	for {
-		it, err := r.ReadByte() // index_type
+		it, err := r.ReadByte()     // index_type
 		if errors.Is(err, io.EOF) { // clean end: no byte of a next row
 			return out
 		}
@@ -125,6 +126,9 @@ func w1ParseBody(body []byte) w1Body {
 		out.rowCount++
 		if w1IsWorkloadMetric(row.metric) {
 			out.rows = append(out.rows, row)
+		}
+		if row.metric == w1MetricSlow {
+			out.slow = append(out.slow, w1SlowKey{int(row.tags[1]) - 1, row.tags[4]})
 		}
 		if row.metric == format.BuiltinMetricIDAggSamplingFactor && w1IsWorkloadMetric(row.tags[4]) {
 			out.sampled = append(out.sampled, row.tags[4])
